@@ -146,6 +146,11 @@ func (h *Hub) RegisterRemoteSKI(ski string) {
 func (h *Hub) UnregisterRemoteSKI(ski string) {
 	ski = util.NormalizeSKI(ski)
 
+	// removing a service and establishing a connection to it exclude each other:
+	// either the connection is registered by now and gets closed below,
+	// or it finds the service no longer paired and is dropped
+	h.muxConnect.Lock()
+
 	service := h.ServiceForSKI(ski)
 	service.SetTrusted(false)
 
@@ -153,9 +158,13 @@ func (h *Hub) UnregisterRemoteSKI(ski string) {
 
 	service.ConnectionStateDetail().SetState(api.ConnectionStateNone)
 
+	existingC := h.connectionForSKI(ski)
+
+	h.muxConnect.Unlock()
+
 	h.notifyPairingDetail(ski, service.ConnectionStateDetail(), 0)
 
-	if existingC := h.connectionForSKI(ski); existingC != nil {
+	if existingC != nil {
 		existingC.CloseConnection(true, 4500, "User close")
 	}
 }
@@ -177,9 +186,23 @@ func (h *Hub) DisconnectSKI(ski string, reason string) {
 func (h *Hub) CancelPairingWithSKI(ski string) {
 	ski = util.NormalizeSKI(ski)
 
+	// cancelling and establishing a connection exclude each other:
+	// either the connection is registered by now and gets aborted below,
+	// or it finds the service no longer wanted and is dropped
+	h.muxConnect.Lock()
+
 	h.removeConnectionAttemptCounter(ski)
 
-	if existingC := h.connectionForSKI(ski); existingC != nil {
+	existingC := h.connectionForSKI(ski)
+	if existingC == nil {
+		service := h.ServiceForSKI(ski)
+		service.ConnectionStateDetail().SetState(api.ConnectionStateNone)
+		service.SetTrusted(false)
+	}
+
+	h.muxConnect.Unlock()
+
+	if existingC != nil {
 		existingC.AbortPendingHandshake()
 
 		// a handshake that is in a phase where it can not be aborted with a hello message
